@@ -119,7 +119,7 @@ type craft struct {
 	subID   channel.ID
 	alt     *channel.State // settle:credit-of-discarded-final: the final state whose update was discarded
 	accSeen bool           // H sent ChannelUpdateAcc for (ch, version)
-	pending bool // a multi-message craft is still under way
+	pending bool           // a multi-message craft is still under way
 }
 
 type c07state struct {
